@@ -1,4 +1,10 @@
 import FedjaxVerif.Model.Proto
+import FedjaxVerif.Handlers.C19
+import FedjaxVerif.Handlers.C09
+import FedjaxVerif.Handlers.C18
+import FedjaxVerif.Handlers.C08
+import FedjaxVerif.Handlers.C13
+import FedjaxVerif.Handlers.C16
 import FedjaxVerif.Handlers.C15
 import FedjaxVerif.Handlers.C04
 import FedjaxVerif.Handlers.C03
@@ -8,7 +14,7 @@ import FedjaxVerif.Handlers.C01
 open FedjaxVerif
 
 def handlers : List (String → List Val → Option Val) :=
-  [Handlers.C03.handle, Handlers.C02.handle, Handlers.C01.handle, Handlers.C04.handle, Handlers.C15.handle]
+  [Handlers.C03.handle, Handlers.C02.handle, Handlers.C01.handle, Handlers.C04.handle, Handlers.C15.handle, Handlers.C16.handle, Handlers.C13.handle, Handlers.C08.handle, Handlers.C18.handle, Handlers.C09.handle, Handlers.C19.handle]
 
 def answer (line : String) : String :=
   match parseLine line with
